@@ -12,7 +12,8 @@ THEOREMS = ['Otel.C02.' + t for t in (
     'late_forceflush_returns_false', 'late_shutdown_is_noop', 'worker_never_stuck', 'flusher_never_stuck',
     'shutdown_blocked_only_by',
     # progress (Props/C02Live.lean): a rank the worker lowers with every transition until the newest ticket is served
-    'flush_served_within', 'rank_decreases', 'served_flusher_returns_true', 'queue_within_capacity')] + ['Otel.Batch.reachable_inv', 'Otel.Batch.inv_astep', 'Otel.Batch.served_of_wcount']
+    'flush_served_within', 'rank_decreases', 'served_flusher_returns_true', 'queue_within_capacity',
+    'worker_terminates_within', 'rank2_decreases', 'join_enabled_when_done')] + ['Otel.Batch.reachable_inv', 'Otel.Batch.inv_astep', 'Otel.Batch.served_of_wcount', 'Otel.Batch.done_of_wcount']
 THEOREMS = THEOREMS + RD.THEOREMS_C02
 HARNESSES = [B.H_BSP, B.H_BLP] + RD.HARNESSES
 SUBS = [importlib.import_module('props.' + n) for n in ('c02_fanout',) if os.path.exists(os.path.join(os.path.dirname(__file__), n + '.py'))]
@@ -95,7 +96,9 @@ LEVEL_TEXT = ('Lean 4: from one inductive invariant of the protocol model, for e
               'down at most once and exactly once when a Shutdown returned, shutdown_drains, no exporter call after a Shutdown '
               'returned, shutdown final, late OnEnd/ForceFlush/Shutdown are no-ops, "never stuck" lemmas, and progress: flush_served_within (from every reachable '
               'state, in every continuation that issues no further ticket, 5*max_queue_size+24 worker transitions publish every '
-              'outstanding ticket or the processor is shut down - a rank function, not a bounded search). '
+              'outstanding ticket or the processor is shut down; worker_terminates_within: once is_shutdown is set and no in-flight '
+              'producer / flusher acts any more, 32*(max_queue_size+unpublished tickets)+32 worker transitions end DoBackgroundWork, '
+              'so Shutdown\'s join returns - rank functions, not bounded searches). '
               'Tie: refinement check of real executions under the deterministic scheduler.')
-LEVEL_NOTE = ('Trusted: Lean kernel; scheduler shim (SC); event abstraction; fairness. Partial: that the worker thread is scheduled and its timed wait expires is assumed (wcount counts its transitions); worker termination after Shutdown is "never stuck" + drained runs, not a rank; reader flush completeness holds unless a collection was cancelled by export_timeout (D17 witness).')
+LEVEL_NOTE = ('Trusted: Lean kernel; scheduler shim (SC); event abstraction; fairness. Partial: that the worker thread is scheduled and its timed wait expires is assumed (wcount counts its transitions); worker termination after Shutdown is proved for a quiet environment (the finitely many producers / flushers already past the is_shutdown test have finished); reader flush completeness holds unless a collection was cancelled by export_timeout (D17 witness).')
 DESIGN_REF = 'DESIGN.md section 4, C02; Appendix C'
